@@ -18,7 +18,9 @@ from . import common as C
 ID = 'C09'
 TECHNIQUE = ('literal folding of the nine shipped tables compared with a reference copy; origin/effect analysis for '
              'writers of the tables; abstract evaluation of calculate_curve (pre-loop, loop body with symbolic index, '
-             'tail) to rational normal forms and node identities a x^2 + b x + c = y; normal form of drag_by_mach')
+             'tail) to rational normal forms and node identities a x^2 + b x + c = y; normal form of drag_by_mach; the '
+             'selector\'s search loop by inductive invariants in a linear-constraint domain (Houdini inference, '
+             'Fourier-Motzkin refutation) with counterexamples from a finite ordering family')
 DECIDED = [
     'R1 the nine shipped tables are literal lists, strictly ascending in Mach from exactly 0, CD > 0, equal to the '
     'reference copy; no code in the package stores into them or hands their dict entries to a model '
@@ -28,12 +30,15 @@ DECIDED = [
     'and the selector evaluates c + b m + a m^2 of one and the same entry',
     'R3 drag_by_mach = Cd * K / BC with K within 1e-4 of standard density * pi / (8 * 144); BC, table, curve and Mach '
     'nodes all come from shot.ammo.dm on every entry; the Mach node list is the table\'s Mach column in order',
-    'R4 the selector\'s bisection: the loop runs while hi - lo > 1, one step replaces lo by the middle index when the '
-    'middle node is below the query and hi otherwise (the query stays bracketed), and the entry evaluated is the one at '
-    'lo or at hi - whose nodes (R2) include both neighbours of the query',
+    'R4 the selector, for every table length and every query: at each return the value is c + q (b + a q) of one entry m '
+    'with 0 <= m <= n-2 and (m = 0 or ml[m-1] <= q) and (m = n-2 or q <= ml[m+1]), i.e. the nodes of the entry (R2) '
+    'include both neighbours of the query, and every index is in range - proved from branch conditions and inductive '
+    'loop invariants inferred Houdini-style, refutation by Fourier-Motzkin with case splits (engine E); an unproved '
+    'obligation becomes a violation only with a concrete counterexample from the finite input family (which also '
+    'exposes a loop that never terminates)',
 ]
-NOT_DECIDED = ['termination of the bisection and its behaviour for queries below the first node as numbers; positivity and '
-               'the 5 % band between nodes (numerics)']
+NOT_DECIDED = ['termination of the bisection for tables longer than the finite family; positivity and the 5 % band '
+               'between nodes (numerics)']
 
 REF = os.path.join(os.path.dirname(os.path.dirname(os.path.abspath(__file__))), 'spec', 'drag_tables_ref.json')
 
@@ -331,101 +336,105 @@ def check_curve(prog: Program, rep, rule: str) -> None:
 
 
 def check_search(prog: Program, rep, rule: str) -> None:
-    """The selector's bisection: one transition of the loop keeps the query bracketed between the Mach nodes at
-    (lo, hi), the loop runs while hi - lo > 1, and the entry returned is the one at lo or at hi.  Entry m passes
-    through nodes m-1, m, m+1 (R2), so both neighbours of the query are among its nodes."""
+    """The selector decided for every table length and every query (engine E): under the facts that hold at each
+    return (branch conditions plus inductive loop invariants) the value is c + q (b + a q) of ONE entry m with
+    0 <= m <= n-2 whose nodes m-1, m, m+1 (R2; nodes 0, 1 for the first entry) include both neighbours of the query:
+    (m = 0 or ml[m-1] <= q) and (m = n-2 or q <= ml[m+1]).  Mach nodes strictly ascending, one entry per node."""
+    from .. import loopproof as L
+    from fractions import Fraction
     tc = prog.module(C.M_TC)
     sel = prog.func(C.M_TC, '_calculate_by_curve_and_mach_list')
+    rep.saw(sel)
     ml_p, curve_p, q_p = sel.positional[:3]
-    loops = [s_ for s_ in sel.node.body if isinstance(s_, ast.While)]
-    if len(loops) != 1:
-        raise AnalysisError('selector: expected one bisection loop')
-    loop = loops[0]
-    ev = Evaluator(prog)
-    ctx = Ctx(tc, sel, None, 0)
-    # names of the two bounds: the names in the loop condition
-    bnames = sorted({n.id for n in ast.walk(loop.test) if isinstance(n, ast.Name)})
-    if len(bnames) != 2:
-        raise AnalysisError(f'selector: loop condition reads {bnames}')
-    st = State({ml_p: SymObj('ml'), curve_p: SymObj('curve'), q_p: S('q')})
-    lo_n = hi_n = None
-    pre = sel.node.body[:sel.node.body.index(loop)]
-    t0 = ev.exec_block(pre, st, ctx)
-    if not isinstance(t0, Leaf):
-        raise AnalysisError('selector: branching before the loop')
-    for n in bnames:
-        v = t0.state.env.get(n)
-        if isinstance(v, Scalar) and v.rf.is_const():
-            lo_n = n
-        elif isinstance(v, Scalar):
-            hi_n = n
-    if lo_n is None or hi_n is None:
-        raise AnalysisError('selector: cannot tell the lower from the upper bound')
-    lo, hi, q = A.sym('lo'), A.sym('hi'), A.sym('q')
-    problems = []
-    # loop condition: hi - lo > 1
-    tv = ev.eval(loop.test, State({lo_n: S('lo'), hi_n: S('hi')}), ctx)
-    if not (isinstance(tv, Cond) and tv.test.kind == 'pos' and tv.test.rf.equals(hi - lo - 1) and isinstance(tv.a, Const)
-            and tv.a.value is True):
-        problems.append(f'the loop runs while `{norm(loop.test)}`; a bracket of adjacent nodes needs `hi - lo > 1`')
-    # one transition
-    st1 = State({ml_p: SymObj('ml'), curve_p: SymObj('curve'), q_p: S('q'), lo_n: S('lo'), hi_n: S('hi')})
+    cp = prog.cls(C.M_TC, 'CurvePoint')
+    fields = prog.namedtuple_fields(cp) if cp is not None else None
+    if not fields or set(fields) != {'a', 'b', 'c'}:
+        raise AnalysisError(f'CurvePoint fields are {fields}, expected a, b, c')
+    roles = L.Roles(arrays={ml_p: 'strict', curve_p: None}, reals=[q_p], record_arrays={curve_p: ('a', 'b', 'c')},
+                    same_length=[(ml_p, curve_p)], min_len={ml_p: 2})
+    rep.assume('selector: Mach nodes strictly ascending, len(curve) == len(mach_list) >= 2 (calculate_curve makes one entry per node)')
+
+    def goal(ab, st, tag, v, node):
+        if tag != 'return':
+            return []
+        q = st.env.get(q_p)
+        if v is None or v.kind not in ('real', 'int') or ab.rf_of(v) is None or q is None or q.lin is None:
+            return [(L.F_, f'line {node.lineno}: the returned value is not an arithmetic expression of the entry and the query')]
+        val, qrf = ab.rf_of(v), ab.lin_rf(q.lin)
+        idx = {}
+        for name in sorted(val.symbols()):
+            if name in ab.pr.elem and ab.pr.elem[name][0].startswith(curve_p + '.'):
+                idx[ab.pr.elem[name][1].key()] = ab.pr.elem[name][1]
+        n_ = ab.len_of(ml_p)
+        zero, one = L.Lin.const(0), L.Lin.const(1)
+        for m in idx.values():
+            a_, b_, c_ = (A.sym(ab.pr.elem_term(f'{curve_p}.{f}', m)) for f in ('a', 'b', 'c'))
+            if not val.equals(c_ + qrf * (b_ + a_ * qrf)):
+                continue
+            below = L.Lin.var(ab.pr.elem_term(ml_p, m - one))
+            above = L.Lin.var(ab.pr.elem_term(ml_p, m + one))
+            g = L.f_and(L.f_le(zero, m), L.f_le(m, n_.plus(-2)),
+                        L.f_or(L.f_eq(m, zero), L.f_le(below, q.lin)),
+                        L.f_or(L.f_eq(m, n_.plus(-2)), L.f_le(q.lin, above)))
+            return [(g, f'line {node.lineno}: the entry evaluated is one whose nodes include both neighbours of the query')]
+        return [(L.F_, f'line {node.lineno}: the returned value {val!r} is not c + q (b + a q) of one curve entry')]
+
+    def inputs():
+        # node spacings: uniform, widening and narrowing (a choice by distance shows only on unequal gaps)
+        for n in range(2, 10):
+            for gaps in ([1] * (n - 1), [2 ** i for i in range(n - 1)], [2 ** (n - 2 - i) for i in range(n - 1)]):
+                ml = [Fraction(0)]
+                for g in gaps:
+                    ml.append(ml[-1] + g)
+                qs = [ml[0] - 1, ml[-1] + 1] + list(ml)
+                for lo, hi in zip(ml, ml[1:]):
+                    qs += [lo + (hi - lo) * Fraction(k, 8) for k in (1, 3, 4, 5, 7)]
+                for q in qs:
+                    yield {ml_p: ml, curve_p: [None] * n, q_p: q}
+
+    def oracle(inp, c, outcome):
+        ml, q = inp[ml_p], inp[q_p]
+        n = len(ml)
+        where = f'Mach nodes {[str(x) for x in ml]}, query {q}'
+        if outcome[0] in ('raise', 'hang'):
+            return f'{where}: {outcome[1]}'
+        if outcome[0] != 'return' or not isinstance(outcome[1], A.RF):
+            return f'{where}: no value returned'
+        val = outcome[1]
+        qc = A.RF.const(q)
+        for m in range(n):
+            a_, b_, c_ = (A.sym(f'{curve_p}.{f}[{m}]') for f in ('a', 'b', 'c'))
+            if val.equals(c_ + qc * (b_ + a_ * qc)):
+                ok = 0 <= m <= n - 2 and (m == 0 or ml[m - 1] <= q) and (m == n - 2 or q <= ml[m + 1])
+                if ok:
+                    return None
+                nodes = '0, 1' if m == 0 else f'{m - 1}, {m}, {m + 1}' if m <= n - 2 else f'{m - 1}, {m} (the tail line)'
+                return f'{where}: entry {m} is evaluated, whose nodes {nodes} do not include both neighbours of the query'
+        return f'{where}: the value {val!r} is not c + q (b + a q) of one entry'
+
     try:
-        tree = ev.exec_block(loop.body, st1, ctx)
-    except Undecided as exc:
-        raise AnalysisError(f'selector loop body: {exc}') from exc
-    mid = A.fn('floordiv', hi + lo, 2)
-    seen = {'below': False, 'notbelow': False}
-    for path, leaf in leaves(tree):
-        e = leaf.state.env
-        l1, h1 = e.get(lo_n), e.get(hi_n)
-        below = None
-        for t, pol in path:
-            node_mid = A.sym(f'ml[{mid!r}]')
-            if t.kind == 'pos' and t.rf.equals(q - node_mid):
-                below = pol                 # ml[mid] < q
-            elif t.kind == 'nonneg' and t.rf.equals(q - node_mid):
-                below = pol                 # ml[mid] <= q   (bracket [lo, hi): equally sound)
-            elif t.kind == 'nonneg' and t.rf.equals(node_mid - q):
-                below = not pol
-            elif t.kind == 'pos' and t.rf.equals(node_mid - q):
-                below = not pol
-            else:
-                problems.append(f'the bisection step depends on {t!r}: not a comparison of the query with the middle node '
-                                f'ml[(lo + hi) // 2]')
-        if below is None:
-            continue
-        if not (isinstance(l1, Scalar) and isinstance(h1, Scalar)):
-            problems.append('bounds are not numbers after a step')
-            continue
-        if below:
-            seen['below'] = True
-            if not (l1.rf.equals(mid) and h1.rf.equals(hi)):
-                problems.append(f'when the middle node is below the query the bounds become ({l1.rf!r}, {h1.rf!r}); '
-                                f'keeping the query bracketed needs (mid, hi)')
+        res = L.analyse_search(sel.node, roles, goal, inputs(), oracle)
+    except L.Unsupported as exc:
+        rep.undecided(rule, sel.where, 'selector', f'outside the fragment engine E reads: {exc}')
+        return
+    rep.extra['selector_proof'] = {
+        'loops': res.loop_info, 'invariants': list(res.invariants.values()), 'prover_calls': res.prover_calls,
+        'concrete_inputs': res.concrete_runs, 'concrete_inputs_not_readable': res.concrete_unknown,
+        'obligations': [{'text': L.pretty(o.text), 'status': o.status} for o in res.obligations][:40]}
+    if not [o for o in res.obligations if o.tag == 'return']:
+        rep.fail(rule, tc.path, sel.node.lineno, sel.qualname, 'bisection', 'the selector returns nothing')
+        return
+    unknown = [o for o in res.obligations if o.status != 'proved']
+    if res.witnesses:
+        rep.fail(rule, tc.path, sel.node.lineno, sel.qualname, 'bisection',
+                 'counterexample: ' + res.witnesses[0] + (f'; unproved: {L.pretty(unknown[0].text)}' if unknown else ''))
+        return
+    for o in res.obligations:
+        where = f'{tc.path}:{getattr(o.node, "lineno", sel.node.lineno)}'
+        if o.status == 'proved':
+            rep.ok(rule, where, L.pretty(o.text))
         else:
-            seen['notbelow'] = True
-            if not (l1.rf.equals(lo) and h1.rf.equals(mid)):
-                problems.append(f'when the middle node is not below the query the bounds become ({l1.rf!r}, {h1.rf!r}); '
-                                f'keeping the query bracketed needs (lo, mid)')
-    if not all(seen.values()):
-        problems.append('the bisection step does not compare the query with the middle node in both directions')
-    # after the loop: the entry returned is the one at lo or at hi
-    post = sel.node.body[sel.node.body.index(loop) + 1:]
-    st2 = State({ml_p: SymObj('ml'), curve_p: SymObj('curve'), q_p: S('q'), lo_n: S('lo'), hi_n: S('hi')})
-    t2 = ev.exec_block(post, st2, ctx)
-    for path, leaf in leaves(t2):
-        if leaf.kind != 'return' or not isinstance(leaf.value, Scalar):
-            continue
-        names = {repr(v) for v in (leaf.value.rf.coeffs_in('q') or {}).values()}
-        ent = {n.rsplit('.', 1)[0] for n in names if n.startswith('curve[')}
-        if not ent <= {'curve[lo]', 'curve[hi]'} or len(ent) != 1:
-            problems.append(f'the entry evaluated after the search is {sorted(ent)}, not the one at a bracketing node')
-    if problems:
-        rep.fail(rule, tc.path, loop.lineno, sel.qualname, 'bisection', '; '.join(sorted(set(problems))[:3]))
-    else:
-        rep.ok(rule, tc.where(loop), 'bisection: while hi - lo > 1; ml[mid] < q -> (mid, hi) else (lo, mid)')
-        rep.ok(rule, tc.where(loop), 'the entry returned is the one at lo or at hi: its nodes include both neighbours of the query')
+            rep.undecided(rule, where, L.pretty(o.text), 'not proved from the inferred invariants and no counterexample in the finite family')
 
 
 def check_mach_list(prog: Program, rep, rule: str) -> None:
@@ -549,8 +558,13 @@ VARIANTS = [
     Variant('loop-starts-at-zero', 'break', [(TCF, 'for i in range(1, len_data_range):', 'for i in range(0, len_data_range):')], 'C09.R2', 'entries shifted by one index'),
     Variant('table-sorted-by-api', 'break', [(DMF, 'def make_data_points(drag_table: DragTableDataType) -> List[DragDataPoint]:\n    """Convert drag table from list of dictionaries to list of DragDataPoints"""\n', 'def make_data_points(drag_table: DragTableDataType) -> List[DragDataPoint]:\n    """Convert drag table from list of dictionaries to list of DragDataPoints"""\n    from py_ballisticcalc.drag_tables import TableG1\n    TableG1.sort(key=lambda p: p["Mach"])\n')], 'C09.R1'),
     Variant('bc-from-constant', 'break', [(TCF, 'self._bc: float = shot_info.ammo.dm.BC', 'self._bc: float = 1.0')], 'C09.R3'),
-    Variant('bisection-skips-middle', 'break', [(TCF, '        if mach_list[mid] < mach:\n            mlo = mid\n        else:\n            mhi = mid\n\n    if mach_list[mhi] - mach', '        if mach_list[mid] < mach:\n            mlo = mid + 1\n        else:\n            mhi = mid\n\n    if mach_list[mhi] - mach')], 'C09.R4', 'bracket lost when the query lies just above a middle node'),
+    Variant('twin-bisection-skips-middle', 'twin', [(TCF, '        if mach_list[mid] < mach:\n            mlo = mid\n        else:\n            mhi = mid\n\n    if mach_list[mhi] - mach', '        if mach_list[mid] < mach:\n            mlo = mid + 1\n        else:\n            mhi = mid\n\n    if mach_list[mhi] - mach')], None, 'lo = mid + 1 keeps ml[lo-1] < q: the entry at lo or hi still has both neighbours among its nodes (proved); an earlier pattern rule reported this edit'),
     Variant('bisection-stops-early', 'break', [(TCF, '    while mhi - mlo > 1:\n        mid = (mhi + mlo) // 2\n        if mach_list[mid] < mach:', '    while mhi - mlo > 2:\n        mid = (mhi + mlo) // 2\n        if mach_list[mid] < mach:')], 'C09.R4', 'entry two nodes away from the query'),
+    Variant('nearest-node-reversed', 'break', [(TCF, '    if mach_list[mhi] - mach > mach - mach_list[mlo]:', '    if mach_list[mhi] - mach < mach - mach_list[mlo]:')], 'C09.R4', 'wrong only in the last interval and beyond the table'),
+    Variant('bisection-bound-plus-one', 'break', [(TCF, '        else:\n            mhi = mid\n\n    if mach_list[mhi] - mach', '        else:\n            mhi = mid + 1\n\n    if mach_list[mhi] - mach')], 'C09.R4', 'never terminates when hi - lo = 2'),
+    Variant('twin-loop-condition-ge-2', 'twin', [(TCF, '    while mhi - mlo > 1:\n        mid = (mhi + mlo) // 2\n        if mach_list[mid] < mach:', '    while mhi - mlo >= 2:\n        mid = (mhi + mlo) // 2\n        if mach_list[mid] < mach:')], None),
+    Variant('twin-nearest-by-abs', 'twin', [(TCF, '    if mach_list[mhi] - mach > mach - mach_list[mlo]:', '    if abs(mach_list[mhi] - mach) > abs(mach - mach_list[mlo]):')], None),
+    Variant('twin-mid-by-offset', 'twin', [(TCF, '        mid = (mhi + mlo) // 2\n        if mach_list[mid] < mach:', '        mid = mlo + (mhi - mlo) // 2\n        if mach_list[mid] < mach:')], None),
     Variant('entry-one-below', 'break', [(TCF, '    curve_m = curve[m]\n    return curve_m.c', '    curve_m = curve[max(m - 1, 0)]\n    return curve_m.c')], 'C09.R4'),
     Variant('mach-list-sorted-desc', 'break', [(TCF, '    for dp in data:\n        result.append(dp.Mach)\n    return result', '    for dp in data:\n        result.append(dp.Mach)\n    return result[::-1]')], 'C09.R3'),
     Variant('twin-bisection-le', 'twin', [(TCF, '        if mach_list[mid] < mach:\n            mlo = mid\n        else:\n            mhi = mid\n\n    if mach_list[mhi] - mach', '        if mach_list[mid] <= mach:\n            mlo = mid\n        else:\n            mhi = mid\n\n    if mach_list[mhi] - mach')], None, 'bracket [lo, hi) instead of (lo, hi]'),
